@@ -257,5 +257,5 @@ ASSUMPTIONS = ["layouts transcribed from the C structs documented in src/data/fi
 
 def main(tier):
     n = 2500 if tier == "quick" else 120000
-    cap = 300 if tier == "quick" else 7200
+    cap = 300 if tier == "quick" else 1500
     return engine.run_check(PROP, "c08", tier, n, cap, "exploration", RULE, ASSUMPTIONS)
